@@ -193,7 +193,7 @@ func c14Cases(tier string) []c14Case {
 			}
 		}
 	}
-	srcArgs := []string{"/", "a", "a/f", "b", "*", "a/*", "l", "l/f", "c", "?", "a/..", "c/../a/..", "a/../../b"}
+	srcArgs := []string{"/", "a", "a/f", "b", "*", "a/*", "l", "l/f", "c", "?", "a/..", "c/../a/..", "a/../../b", "l/a/f", "l/a", "l/a/*"}
 	dstArgs := []string{"/", "a", "a/f", "x", "new", "l", "l/sub", "x/", "l/"}
 	var pairs [][2]fsmodel.Tree
 	for _, s := range srcV {
